@@ -349,7 +349,12 @@ func (g *Gen) Device(t *Config, nedits int) (*Store, []string) {
 				}
 			}
 		case 11: // policy missing on device
-			if len(s.Policies) > 1 {
+			if len(s.Policies) > 1 && g.Rng.Intn(2) == 0 {
+				// First roll-out of several gateways: no policy there yet,
+				// groups (now unused) may already exist.
+				s.Policies = nil
+				ops = append(ops, "all-policies-missing")
+			} else if len(s.Policies) > 1 {
 				s.Policies = s.Policies[1:]
 				ops = append(ops, "policy-missing")
 			}
